@@ -33,24 +33,34 @@ theorem effCommit_hasC {ks : KeyState} {l : Lock} {cv : Nat} (hts : l.ts = S) (h
     HasC S (effCommit ks l cv) :=
   ⟨⟨cv, l.ts, l.kind⟩, by simp [effCommit, mem_setWrite], hts, hk⟩
 
-theorem prewriteKey_eff {ttl : Nat} {m : Mut} {ks : KeyState} (ok : TsOK S CV m) (h : KInv S CV m ks) :
-    ((prewriteKey S ttl m ks).2 ≠ .ok ∧ (prewriteKey S ttl m ks).1 = ks) ∨
-    ((prewriteKey S ttl m ks).2 = .ok ∧ (prewriteKey S ttl m ks).1 = effLock S ttl m ks ∧ NoRec S ks) := by
+theorem prewriteKey_eff (pc : PercCfg) {ttl : Nat} {m : Mut} {ks : KeyState} (ok : TsOK S CV m) (h : KInv S CV m ks) :
+    ((prewriteKey pc S ttl m ks).2 ≠ .ok ∧ (prewriteKey pc S ttl m ks).1 = ks) ∨
+    ((prewriteKey pc S ttl m ks).2 = .ok ∧ (prewriteKey pc S ttl m ks).1 = ks ∧ HasL S ks) ∨
+    ((prewriteKey pc S ttl m ks).2 = .ok ∧ (prewriteKey pc S ttl m ks).1 = effLock S ttl m ks ∧ NoRec S ks) := by
   unfold prewriteKey
   split
   · exact Or.inl ⟨by simp, rfl⟩
-  · split
-    · exact Or.inl ⟨by simp, rfl⟩
-    · rename_i _ hnew
-      refine Or.inr ⟨rfl, rfl, ?_⟩
-      intro w hw hs
-      have hnw : ¬ S ≤ w.commitTs := by
-        simp only [hasNewer, List.any_eq_true, not_exists, not_and, Bool.not_eq_true] at hnew
-        have := hnew w hw
-        simpa using this
-      rcases h.recs w hw hs with rfl | rfl
-      · exact hnw (Nat.le_refl _)
-      · exact hnw (Nat.le_of_lt ok.lt)
+  · rename_i hlo
+    split
+    · rename_i hkeep
+      refine Or.inr (Or.inl ⟨rfl, rfl, ?_⟩)
+      simp only [Bool.and_eq_true, Option.isSome_iff_exists] at hkeep
+      obtain ⟨_, l, hl⟩ := hkeep
+      refine ⟨l, hl, ?_⟩
+      simp only [lockedByOther, hl, Bool.not_eq_true, decide_eq_false_iff_not, Decidable.not_not] at hlo
+      exact hlo
+    · split
+      · exact Or.inl ⟨by simp, rfl⟩
+      · rename_i hnew
+        refine Or.inr (Or.inr ⟨rfl, rfl, ?_⟩)
+        intro w hw hs
+        have hnw : ¬ S ≤ w.commitTs := by
+          simp only [hasNewer, List.any_eq_true, not_exists, not_and, Bool.not_eq_true] at hnew
+          have := hnew w hw
+          simpa using this
+        rcases h.recs w hw hs with rfl | rfl
+        · exact hnw (Nat.le_refl _)
+        · exact hnw (Nat.le_of_lt ok.lt)
 
 theorem commitKey_eff {m : Mut} {ks : KeyState} {l : Lock} (cv : Nat) (h : KInv S CV m ks)
     (hl : ks.lock = some l) (hts : l.ts = S) :
@@ -239,20 +249,25 @@ theorem other_apply (pc : PercCfg) {m : Mut} {ks : KeyState} (h : KInv S CV m ks
       · cases hok
       · rename_i hlo
         split at hok
-        · cases hok
-        · rename_i hnew
-          simp only [hlo, hnew]
-          refine ⟨?_, fun _ _ => Iff.rfl, h.uniq, by simp [setData, Ne.symm h1]⟩
-          intro l hl
-          constructor
-          · intro e
-            have e' : (⟨fts, ttl, 0, m'.kind⟩ : Lock) = l := Option.some.inj e
-            subst e'
-            exact absurd hl h1
-          · intro e
-            exfalso
-            apply hlo
-            simp [lockedByOther, e, hl, Ne.symm h1]
+        · rename_i hkeep
+          simp only [hlo, hkeep]
+          exact OtherStep.refl ks h
+        · rename_i hkeep
+          split at hok
+          · cases hok
+          · rename_i hnew
+            simp only [hlo, hkeep, hnew]
+            refine ⟨?_, fun _ _ => Iff.rfl, h.uniq, by simp [setData, Ne.symm h1]⟩
+            intro l hl
+            constructor
+            · intro e
+              have e' : (⟨fts, ttl, 0, m'.kind⟩ : Lock) = l := Option.some.inj e
+              subst e'
+              exact absurd hl h1
+            · intro e
+              exfalso
+              apply hlo
+              simp [lockedByOther, e, hl, Ne.symm h1]
     · exact OtherStep.refl ks h
   | commit k fts fcv =>
     obtain ⟨h1, _, h3, h4⟩ := hd
@@ -321,23 +336,30 @@ end perkey
 
 variable {t : Txn}
 
-theorem prewrite_ginv (wf : TxnWF t) : ∀ (ms : List Mut) (s : Store), GInv t s → (∀ m ∈ ms, m ∈ t.muts) →
-    GInv t (prewrite t.start t.ttl ms s).1 ∧ SMono t s (prewrite t.start t.ttl ms s).1 ∧
-    ((prewrite t.start t.ttl ms s).2 = [] → ∀ m ∈ ms, Touched t.start ((prewrite t.start t.ttl ms s).1 m.key))
+theorem prewrite_ginv (wf : TxnWF t) (pc : PercCfg) : ∀ (ms : List Mut) (s : Store), GInv t s → (∀ m ∈ ms, m ∈ t.muts) →
+    GInv t (prewrite pc t.start t.ttl ms s).1 ∧ SMono t s (prewrite pc t.start t.ttl ms s).1 ∧
+    ((prewrite pc t.start t.ttl ms s).2 = [] → ∀ m ∈ ms, Touched t.start ((prewrite pc t.start t.ttl ms s).1 m.key))
   | [], s, h, _ => ⟨h, SMono.refl _ _, fun _ m hm => by cases hm⟩
   | m :: ms, s, h, hsub => by
     have hm : m ∈ t.muts := hsub m (List.mem_cons_self ..)
     have hsub' : ∀ m' ∈ ms, m' ∈ t.muts := fun m' h' => hsub m' (List.mem_cons_of_mem _ h')
-    rcases prewriteKey_eff (ttl := t.ttl) (wf.ok hm) (h.k m hm) with ⟨hne, _⟩ | ⟨hok, he, hn⟩
-    · have ih := prewrite_ginv wf ms s h hsub'
+    rcases prewriteKey_eff pc (ttl := t.ttl) (wf.ok hm) (h.k m hm) with ⟨hne, _⟩ | ⟨hok, he, hl⟩ | ⟨hok, he, hn⟩
+    · have ih := prewrite_ginv wf pc ms s h hsub'
       simp only [prewrite, hne, if_false]
       exact ⟨ih.1, ih.2.1, fun hnil => by simp at hnil⟩
+    · -- duplicate: the transaction's lock is kept as it is
+      have ih := prewrite_ginv wf pc ms s h hsub'
+      simp only [prewrite, hok, if_true, he, Store.set_self]
+      refine ⟨ih.1, ih.2.1, fun hnil m' hm' => ?_⟩
+      rcases List.mem_cons.1 hm' with rfl | hm''
+      · exact (ih.2.1 m'.key ⟨m', hm, rfl⟩).t (Or.inl hl)
+      · exact ih.2.2 hnil m' hm''
     · have st : KStep t.start t.cv m (s m.key) (effLock t.start t.ttl m (s m.key)) := KStep.lock t.ttl hn
       have g := GInv.set wf h hm st
         (fun _ _ hc => absurd (effLock_hasC.1 hc) (not_C_of_noRec hn))
         (fun _ _ hc => absurd (effLock_hasC.1 hc) (not_C_of_noRec hn))
         (fun _ _ hr => absurd (effLock_hasR.1 hr) (not_R_of_noRec hn))
-      have ih := prewrite_ginv wf ms _ g.1 hsub'
+      have ih := prewrite_ginv wf pc ms _ g.1 hsub'
       simp only [prewrite, hok, if_true, he]
       refine ⟨ih.1, g.2.trans ih.2.1, fun hnil m' hm' => ?_⟩
       rcases List.mem_cons.1 hm' with rfl | hm''
